@@ -36,3 +36,13 @@ for t in facts.EXPECTED_TARGETS:
 with open(os.path.join(HERE, "rules", "known_fields.json"), "w") as fh:
     json.dump(fields, fh, indent=0, sort_keys=True)
 print(len(fields), "local types")
+
+sigs = {}
+for t in facts.EXPECTED_TARGETS:
+    fns = json.load(open(os.path.join(d, t + ".json")))["fns"]
+    for k, rec in fns.items():
+        if rec.get("kind") in ("Fn", "AssocFn") and "{closure" not in k and not rec.get("from_expansion") and not rec.get("derived") and rec.get("locals"):
+            sigs.setdefault(k, [l["ty"] for l in rec["locals"][:rec.get("arg_count", 0) + 1]])
+with open(os.path.join(HERE, "rules", "known_sigs.json"), "w") as fh:
+    json.dump(sigs, fh, indent=0, sort_keys=True)
+print(len(sigs), "function signatures")
